@@ -137,6 +137,15 @@ func ioFaults(r *Run) {
 				}
 			}
 		}
+		if !par1Set && t.Bool(1, 10, "incomplete-index") {
+			// an index file that lacks some of its packets (the volume files
+			// repeat them): whatever the operation makes of it without a
+			// fault, with a fault it must report the fault
+			k := w.hostileRecoveryKind(r, []string{"index-cut-at-packet-boundary", "index-lacks-a-packet"}[t.Draw(2, "how")])
+			if k != "none" {
+				kinds = append(kinds, "incomplete-index")
+			}
+		}
 		if par1Set && t.Bool(1, 5, "foreign-writer") {
 			// the set as another PAR1 client would have written it (comment,
 			// entries listed but not saved in the volume set)
